@@ -65,11 +65,14 @@ type Config struct {
 }
 
 func DefaultDialer() *uacp.Dialer {
+	// every dialer gets its own copy: the buffer size options write through
+	// ClientACK and must not change the package level default
+	ack := *uacp.DefaultClientACK
 	return &uacp.Dialer{
 		Dialer: &net.Dialer{
 			Timeout: DefaultDialTimeout,
 		},
-		ClientACK: uacp.DefaultClientACK,
+		ClientACK: &ack,
 	}
 }
 
